@@ -7,6 +7,7 @@ func init() {
 	vRegister("H_C08_nested_values", H_C08_nested_values)
 	vRegister("H_C08_messages", H_C08_messages)
 	vRegister("H_C08_helpers", H_C08_helpers)
+	vRegister("H_C08_raw_empty", H_C08_raw_empty)
 	vRegister("H_C08_key", H_C08_key)
 }
 
@@ -311,11 +312,77 @@ func H_C08_messages() {
 	vReach("end")
 }
 
+// raw fields that are empty but not nil count as absent (the documented test is on their length): the maps are
+// what gets encoded, in every structure
+func H_C08_raw_empty() {
+	h := Headers{Protected: ProtectedHeader(mkBenignMap("p", 1, false)), Unprotected: UnprotectedHeader(mkBenignMap("u", 1, false))}
+	switch vChoose("which", 3) {
+	case 0:
+		h.RawProtected = []byte{}
+	case 1:
+		h.RawUnprotected = []byte{}
+	case 2:
+		h.RawProtected, h.RawUnprotected = []byte{}, []byte{}
+	}
+	sig := vBlobN("sig", 1, 100)
+	var b []byte
+	var err, derr error
+	var back Headers
+	switch vChoose("type", 4) {
+	case 0:
+		b, err = (&Sign1Message{Headers: h, Payload: vBlob("payload"), Signature: sig}).MarshalCBOR()
+		var d Sign1Message
+		if err == nil {
+			derr = d.UnmarshalCBOR(b)
+			back = d.Headers
+		}
+	case 1:
+		b, err = (&SignMessage{Headers: h, Payload: vBlob("payload"), Signatures: []*Signature{{Headers: h, Signature: sig}}}).MarshalCBOR()
+		var d SignMessage
+		if err == nil {
+			derr = d.UnmarshalCBOR(b)
+			back = d.Headers
+		}
+	case 2:
+		b, err = (&Signature{Headers: h, Signature: sig}).MarshalCBOR()
+		var d Signature
+		if err == nil {
+			derr = d.UnmarshalCBOR(b)
+			back = d.Headers
+		}
+	case 3:
+		b, err = (&Countersignature{Headers: h, Signature: sig}).MarshalCBOR()
+		var d Countersignature
+		if err == nil {
+			derr = d.UnmarshalCBOR(b)
+			back = d.Headers
+		}
+	}
+	vAssert("raw-empty: the message encodes", err == nil)
+	if err != nil {
+		return
+	}
+	t := vParse(b)
+	vAssert("raw-empty: output is one deterministic item", t != nil && nCanonical(t, false))
+	vLogErr("decode", derr)
+	vAssert("raw-empty: the library decodes what it encodes", derr == nil)
+	if derr == nil {
+		vAssert("raw-empty: the header maps are what was encoded", len(back.Protected) == len(h.Protected) && len(back.Unprotected) == len(h.Unprotected))
+	}
+	vReach("end")
+}
+
 // Sign helpers return bytes the matching decoder accepts
 func H_C08_helpers() {
 	vMapOrder()
 	sp := &spySigner{alg: Algorithm(vInt64("alg")), sig: vBlobN("sig", 1, 100)}
 	h := Headers{Protected: ProtectedHeader(mkBenignMap("p", 2, false)), Unprotected: UnprotectedHeader(mkBenignMap("u", 1, false))}
+	switch vChoose("rawempty", 3) {
+	case 1:
+		h.RawProtected = []byte{}
+	case 2:
+		h.RawUnprotected = []byte{}
+	}
 	var out []byte
 	var err, derr error
 	which := vChoose("helper", 3)
